@@ -62,6 +62,15 @@ Proof.
     unfold charpoly. oct_compute. gen_unfold. proj. ring.
 Qed.
 
+Ltac proj_all := cbn [Rf.G_x Rf.G_y Rf.numAtoms Rf.M0 Rf.M1 Rf.M2 Rf.M3 Rf.M4 Rf.M5 Rf.M6 Rf.M7 Rf.M8 Rf.h_lambda_1] in *.
+(* evaluate the generated conditionals on concrete data: case analysis; impossible branches are closed by lra *)
+Ltac eval_ifs :=
+  repeat (autounfold with rmsdgen_cond in *; repeat progress autounfold with rmsdgen rmsdgen_snap in *; proj_all;
+          match goal with
+          | |- context [if ?c then _ else _] => destruct c in *
+          | H : context [if ?c then _ else _] |- _ => destruct c in *
+          end).
+
 (* non-vacuity of the hypotheses of rmsd_optimal_partial / superpose_attains: the octahedron against
    itself (lam = G = 6) is centred, lam is a root and dominates, and the code does not fall back *)
 Definition oct_self : list apair := map (fun p => (fst p, fst p)) oct.
@@ -72,9 +81,7 @@ Proof.
   - unfold centred, sumx, sumy, oct_self, oct, vzero, vx, vy, vz. cbn [map sumf fst snd]. split; f_equal; [f_equal| |f_equal|]; ring.
   - unfold charpoly, oct_self. oct_compute. cbn [map sumf fst snd]. gen_unfold. proj. ring.
   - intros a b c d U. unfold qKq, oct_self. oct_compute. cbn [map sumf fst snd]. gen_unfold. proj. nra.
-  - intros F. destruct (not_fallback_rot (inp_of oct_self 6)) as [P _]; [|].
-    2:{ clear P. revert F. unfold Rf.fallback. autounfold with rmsdgen_cond. unfold oct_self. oct_compute. cbn [map sumf fst snd].
-        gen_unfold. proj. intros F. lra. }
-    revert F. unfold Rf.fallback. autounfold with rmsdgen_cond. unfold oct_self. oct_compute. cbn [map sumf fst snd].
-    gen_unfold. proj. intros F. lra.
+  - unfold Rf.fallback, oct_self. oct_compute. cbn [map sumf fst snd]. eval_ifs.
+    all: autounfold with rmsdgen_cond in *; repeat progress autounfold with rmsdgen rmsdgen_snap in *; proj_all.
+    all: lra.
 Qed.
